@@ -20,30 +20,24 @@ KEYS = {"kS": "str", "kB": "bytes", "kN": "pickle", "kO": "pickle"}
 PATHS = ["/t/s", "/.h", "/h"]
 COMMITS = {"full": ["full", "FULL", "Full"], "links_only": ["links_only", "LINKS_ONLY"], "none": ["none", "None"]}
 
-MODSRC = '''import dds
-import _vcount as C
+VALUE_SETS = [
+    {"kS": "text ü", "kB": b"\x00\xffraw", "kN": None, "kO": {"k": [1, 2.5, "ü"]}},
+    # results whose stored form is zero bytes long
+    {"kS": "", "kB": b"", "kN": None, "kO": []},
+    {"kS": "line1\r\nline2\r" * 2000, "kB": bytes(range(256)) * 300, "kN": None, "kO": {"k": list(range(3000))}},
+]
+VALUES = VALUE_SETS[0]
 
 
-def kS():
-    C.hit("kS")
-    return "text ü"
+def modsrc(vi: int) -> str:
+    v = VALUE_SETS[vi]
+    lines = ["import dds", "import _vcount as C", ""]
+    for k in ("kS", "kB", "kN", "kO"):
+        lines += ["", "def %s():" % k, "    C.hit(%r)" % k, "    return %r" % (v[k],), ""]
+    return "\n".join(lines)
 
 
-def kB():
-    C.hit("kB")
-    return b"\\x00\\xffraw"
-
-
-def kN():
-    C.hit("kN")
-    return None
-
-
-def kO():
-    C.hit("kO")
-    return {"k": [1, 2.5, "ü"]}
-'''
-VALUES = {"kS": "text ü", "kB": b"\x00\xffraw", "kN": None, "kO": {"k": [1, 2.5, "ü"]}}
+MODSRC = modsrc(0)
 
 
 def conf(commit: str, max_ops: int, gen: bool, commits=(), keys=None, paths=None) -> str:
@@ -55,8 +49,8 @@ def conf(commit: str, max_ops: int, gen: bool, commits=(), keys=None, paths=None
                       "Paths == %s" % tlax(set(paths or PATHS)), "MaxOps == %d" % max_ops, "GenMode == %s" % tlax(gen), "====", ""])
 
 
-def _raw_bytes(k: str) -> bytes:
-    v = VALUES[k]
+def _raw_bytes(k: str, vi: int = 0) -> bytes:
+    v = VALUE_SETS[vi][k]
     if KEYS[k] == "str":
         return v.encode("utf-8")
     if KEYS[k] == "bytes":
@@ -65,7 +59,9 @@ def _raw_bytes(k: str) -> bytes:
 
 
 def _client(args) -> Dict[str, Any]:
-    (base, commit_spelling, hist) = args
+    (base, commit_spelling, hist) = args[:3]
+    vi = args[3] if len(args) > 3 else 0
+    VALUES = VALUE_SETS[vi]
     import importlib
     import dds
     import dds._api as api
@@ -144,14 +140,14 @@ def _client(args) -> Dict[str, Any]:
                 bp = os.path.join(fake_root, "int", "blobs", sig[k])
                 os.makedirs(os.path.dirname(bp), exist_ok=True)
                 with open(bp, "wb") as f:
-                    f.write(_raw_bytes(k))
+                    f.write(_raw_bytes(k, vi))
                 with open(bp + ".meta", "w") as f:
                     json.dump({"protocol": legacy, "timestamp_millis": 1}, f)
                 a = {"executed": False, "value": ["ok"]}
         except BaseException as e:
             a = {"executed": bool(C.LOG), "value": ["EXC", type(e).__name__, str(e)[:160]]}
         a["files"] = {q: files(q) for q in PATHS}
-        a["blob_hex"] = {k: _raw_bytes(k).hex() for k in KEYS}
+        a["blob_hex"] = {k: _raw_bytes(k, vi).hex() for k in KEYS}
         a["sig"] = sig
         out.append(a)
     common.disarm()
@@ -159,11 +155,12 @@ def _client(args) -> Dict[str, Any]:
 
 
 def _replay(a) -> Dict[str, Any]:
-    (idx, commit_spelling, hist, base0) = a
+    (idx, commit_spelling, hist, base0) = a[:4]
+    vi = a[4] if len(a) > 4 else idx % len(VALUE_SETS)
     base = os.path.join(base0, "d%d" % idx)
     os.makedirs(os.path.join(base, "vdbfs"))
     open(os.path.join(base, "vdbfs", "__init__.py"), "w").close()
-    open(os.path.join(base, "vdbfs", "m.py"), "w").write(MODSRC)
+    open(os.path.join(base, "vdbfs", "m.py"), "w").write(modsrc(vi))
     open(os.path.join(base, "_vcount.py"), "w").write("LOG = []\n\n\ndef hit(n):\n    LOG.append(n)\n")
     try:
         (r, w) = os.pipe()
@@ -171,7 +168,7 @@ def _replay(a) -> Dict[str, Any]:
         if pid == 0:
             try:
                 os.close(r)
-                res = _client((base, commit_spelling, hist))
+                res = _client((base, commit_spelling, hist, vi))
                 with os.fdopen(w, "wb") as f:
                     f.write(json.dumps(res).encode())
             finally:
@@ -269,11 +266,11 @@ def run_c19(tier: str) -> int:
             if a["value"] != exp["value"]:
                 got = a["value"][0] if a["value"][0] != "EXC" else "EXC:" + a["value"][1]
                 rep.violation("C19|%s|%s|expected=%s|got=%s|%s,%s" % (ctag, o["op"], exp["value"][0], got, legacy, kind),
-                              {"commit_type": spelling, "ops": h[: j + 1], "expected": exp, "observed": {k: a[k] for k in ("executed", "value")}})
+                              {"commit_type": spelling, "value_index": t[0] % len(VALUE_SETS), "ops": h[: j + 1], "expected": exp, "observed": {k: a[k] for k in ("executed", "value")}})
                 break
             if o["op"] == "keep" and a["executed"] != exp["executed"]:
                 rep.violation("C19|%s|keep-executed=%s-expected=%s|%s,%s" % (ctag, a["executed"], exp["executed"], legacy, kind),
-                              {"commit_type": spelling, "ops": h[: j + 1]})
+                              {"commit_type": spelling, "value_index": t[0] % len(VALUE_SETS), "ops": h[: j + 1]})
                 break
             if o["op"] == "keep":
                 if commit == "full":
@@ -290,12 +287,12 @@ def run_c19(tier: str) -> int:
                 elif f["record"] != exp_rec:
                     bad = "redirect-record|%s" % ("missing" if f["record"] is None else ("unexpected" if exp_rec is None else "wrong-key"))
                 if bad:
-                    rep.violation("C19|%s|%s" % (ctag, bad), {"commit_type": spelling, "ops": h[: j + 1], "path": q, "files": f})
+                    rep.violation("C19|%s|%s" % (ctag, bad), {"commit_type": spelling, "value_index": t[0] % len(VALUE_SETS), "ops": h[: j + 1], "path": q, "files": f})
                     break
             if bad:
                 break
         else:
-            rep.add_sample({"commit_type": spelling, "ops": [[o["op"], o["q"], o["k"], o["ans"]["value"]] for o in h]})
+            rep.add_sample({"commit_type": spelling, "value_index": t[0] % len(VALUE_SETS), "ops": [[o["op"], o["q"], o["k"], o["ans"]["value"]] for o in h]})
     # the store contract (C08) on DBFSStore(fake)
     nstore = store_contract(rep, tier)
     rep.cov["traces_validated_against_impl"] = n + nstore
@@ -352,7 +349,7 @@ def replay_file(prop: str, path: str) -> int:
     d = v["detail"]
     print("cause: %s" % v["fingerprint"])
     if "commit_type" in d and "ops" in d:
-        out = _replay((0, d["commit_type"], d["ops"], common.sub_scratch("replay19")))
+        out = _replay((0, d["commit_type"], d["ops"], common.sub_scratch("replay19"), d.get("value_index", 0)))
         if out.get("setup_error"):
             print("set_store failed: %s" % out["setup_error"])
             print("VIOLATION property=%s replay=%s" % (prop, path))
